@@ -429,8 +429,12 @@ func runDrawHistory(t *rapid.T) {
 	var ops []op
 	w0, h0 := rapid.IntRange(1, 10).Draw(t, "w"), rapid.IntRange(1, 5).Draw(t, "h")
 	for i := 0; i < n; i++ {
-		k := rapid.IntRange(0, 15).Draw(t, "op")
+		k := rapid.IntRange(0, 16).Draw(t, "op")
 		switch {
+		case k == 16:
+			// the same text again, only its underline differs
+			ops = append(ops, op{Kind: "restyle-ul", X: rapid.IntRange(0, 9).Draw(t, "ux"), Y: rapid.IntRange(0, 4).Draw(t, "uy"),
+				W: rapid.IntRange(1, 5).Draw(t, "newul"), H: rapid.IntRange(0, 2).Draw(t, "newulc")})
 		case k < 8:
 			o := op{Kind: "set", X: rapid.IntRange(-1, 10).Draw(t, "x"), Y: rapid.IntRange(-1, 5).Draw(t, "y"), R: drawRune(t), St: drawStyle(t)}
 			if lm.Width(o.R) >= 1 && rapid.IntRange(0, 5).Draw(t, "comb") == 0 {
@@ -488,6 +492,20 @@ func runDrawHistory(t *rapid.T) {
 			case "set":
 				w.scr.SetContent(o.X, o.Y, o.R, o.Comb, o.St.Build())
 				w.m.SetContent(o.X, o.Y, o.R, o.Comb, o.St)
+			case "restyle-ul":
+				if w.m.In(o.X, o.Y) {
+					if c := w.m.At(o.X, o.Y); !c.Locked {
+						st := c.St
+						if st.IsZero() {
+							st.Fg = tcell.ColorGreen
+						}
+						st.Ul = tcell.UnderlineStyle(o.W)
+						st.UlC = []tcell.Color{tcell.ColorDefault, tcell.ColorRed, tcell.NewRGBColor(1, 200, 3)}[o.H]
+						st.Attrs |= tcell.AttrUnderline
+						w.scr.SetContent(o.X, o.Y, c.R, append([]rune(nil), c.Comb...), st.Build())
+						w.m.SetContent(o.X, o.Y, c.R, c.Comb, st)
+					}
+				}
 			case "fill":
 				w.scr.Fill(o.R, o.St.Build())
 				w.m.Fill(o.R, o.St)
